@@ -74,7 +74,7 @@ klass('SmtpRelayClient', ['RelayPoolClient'], module=M,
               'connect_timeout': 'Opt[Real]', 'command_timeout': 'Opt[Real]', 'data_timeout': 'Opt[Real]',
               'credentials': 'Any', 'binary_encoder': 'Any', 'current_command': 'Any'})
 
-RC = dict(module=M)
+RC = dict(module=M, scope_timeouts=['self.connect_timeout', 'self.command_timeout', 'self.data_timeout'])
 ERR = {'SmtpRelayError': ['exc.reply != None'], 'ConnectionLost': [], 'BadReply': [], 'OSError': [], 'Timeout': [],
        'AssertionError': []}
 
